@@ -245,6 +245,7 @@ EXTRA_MODULES = {
     "C01": ["Reach"],
     "C02": ["Reach", "C02Sem", "C02Amp"],
     "C09": ["Reach"],
+    "C16": ["C16Proj"],
 }
 
 
